@@ -32,3 +32,18 @@ Example C20_nonvacuous :
   let os := [BAdd "E" "F" [1%N; 2%N]; BAdd "T" "F" [9%N]; BAdd "E" "F" [3%N]; BClear "E" 1; BAdd "E" "F" [4%N]] in
   (consumed_of "E" [] os, stream "E" (fold_left bstep os [])) = ([1%N; 2%N], [3%N; 4%N]).
 Proof. vm_compute. reflexivity. Qed.
+
+(* the choice of the next remote message (model of the race in parse_next_remote_packet): the accepted message is a complete parse of exactly k
+   of the sender's units by a forecast type that could still continue, and no forecast type has a longer one; nothing is accepted exactly when
+   no type has one.  With C20_buffer_exactly_once_in_order: exactly the accepted text leaves the buffer. *)
+From FV Require Import Proofs.C20Choose.
+Theorem C20_choose_longest : forall complete alive cands n nt k, choose complete alive n cands = Some (nt, k) ->
+  In nt cands /\ 1 <= k <= n /\ eligible complete alive nt k = true /\
+  forall nt' k', In nt' cands -> 1 <= k' <= n -> eligible complete alive nt' k' = true -> k' <= k.
+Proof. exact choose_longest. Qed.
+Print Assumptions C20_choose_longest.
+
+Theorem C20_choose_none : forall complete alive cands n, choose complete alive n cands = None ->
+  forall nt k, In nt cands -> 1 <= k <= n -> eligible complete alive nt k = false.
+Proof. exact choose_none. Qed.
+Print Assumptions C20_choose_none.
